@@ -402,8 +402,8 @@ func (e *cdcEndpoint) ServeHTTP(w http.ResponseWriter, r *http.Request) {
 
 type cdcCounters struct {
 	commit, dropped, inTotal, inKept, markers, batchedObj, batches, enq atomic.Int64
-	lead, holding                                                     atomic.Bool
-	leadEvents, events                                                atomic.Int64
+	lead, holding                                                       atomic.Bool
+	leadEvents, events                                                  atomic.Int64
 }
 
 func (c *cdcCounters) resetPipeline() {
@@ -1407,7 +1407,6 @@ func cdcRun(w *ndWriter, base string, sc cdcScenario, seed int64) (*cdcResult, e
 	}
 	return res, nil
 }
-
 
 // ---------------------------------------------------------------- command
 
